@@ -10,6 +10,7 @@ from ..common import bits2arr, driver, f2b
 THEOREMS = ['fid_closed_form', 'se_closed_form', 'pdd_model_eq', 'pdd_closed_form',
             'cpmg_model_eq', 'cpmg_closed_form', 'udd_model_eq', 'udd_closed_form', 'cddY_zero',
             'cddY_one', 'cddY_two', 'cddY_succ', 'cdd_closed_form']
+PINS = ['pinFID', 'pinSE', 'pinPDD', 'pinCPMG', 'pinCDD', 'pinUDD']
 GEN_SITES = []
 COMPONENTS = ['analytic']
 RULES = ['correspondence: analytic.{FID,SE,PDD,CPMG,CDD,UDD}(z, n) vs the Lean model at doubles, '
